@@ -40,7 +40,7 @@ TAGS = {
     "con": "SPDX-FileContributor:",
 }
 FORMS = ["single", "inline", "block", "frame", "xml", "bracket"]
-EOLS = {"LF": "\n", "CRLF": "\r\n", "CR": "\r"}
+EOLS = {"LF": "\n", "CRLF": "\r\n", "CR": "\r", "CRLF+CR": "\r\n"}   # the last: a CRLF file in which the tag lines end in a lone CR
 LIC_VALUES = ["MIT", "GPL-3.0-or-later", "Apache-2.0+", "GPL-2.0-or-later WITH Classpath-exception-2.0", "MIT OR Apache-2.0",
               "MIT AND (0BSD OR ISC)", "LicenseRef-custom-1.0", "(MIT OR X11) AND LicenseRef-a.b", "CC-BY-SA-4.0 AND MIT AND 0BSD",
               # identifiers are case-sensitive: what the author wrote is what is read, also when it is not the SPDX spelling
@@ -139,7 +139,10 @@ def make_text(rng, styles, style, form, tagkey, eolname, hostile=None):
     if form == "frame":
         lines.append("\\" + "*" * 30 + "*/")
     lines.append("code = 1")
-    text = eol.join(lines) + (eol if rng.random() < 0.8 else "")
+    if eolname == "CRLF+CR":
+        text = "".join(ln + ("\r" if any(m in ln for m in ("SPDX-", "Copyright", "©")) else "\r\n") for ln in lines)
+    else:
+        text = eol.join(lines) + (eol if rng.random() < 0.8 else "")
     return text.encode("utf-8"), exp, {"style": style, "form": form, "tag": tagkey, "eol": eolname, "hostile": hostile,
                                        "mirror": opn.strip()[::-1] if hostile == "mirror-tail" else None}
 
@@ -262,13 +265,13 @@ def run_disk(case, ctx, res):
         for j in range(40):
             style = rng.choice(sorted(styles))
             form = rng.choice(["single", "inline", "block"])
-            made = make_text(rng, styles, style, form, rng.choice(list(TAGS)), rng.choice(["LF", "CRLF", "CR"]))
+            made = make_text(rng, styles, style, form, rng.choice(list(TAGS)), rng.choice(["LF", "CRLF", "CR", "CRLF+CR"]))
             if made is None:
                 continue
             data, exp, desc = made
             eol = EOLS[desc["eol"]].encode()
             pos = rng.choice(["start", "inside", "after", "after+snippet", "unparseable", "start+snippet", "after+snippet@boundary",
-                              "after+snippet@boundary", "inside-edge", "after-edge", "start+long", "start+long", "straddle+snippet", "straddle+snippet", "start+char-across-window-end"])
+                              "after+snippet@boundary", "inside-edge", "after-edge", "start+long", "start+long", "straddle+snippet", "straddle+snippet", "start+char-across-window-end", "inside-edge+1"])
             desc = dict(desc, pos=pos)
             filler_line = b"x = 'filler filler filler filler filler filler filler'" + eol
             if pos == "start":
@@ -282,9 +285,23 @@ def run_disk(case, ctx, res):
                 exp = {"lic": set(), "cop": set(), "con": set()}
             elif pos == "after+snippet":
                 blob = b"# SPDX-SnippetBegin" + eol + filler_line * 90 + data + b"# SPDX-SnippetEnd" + eol
-            elif pos in ("inside-edge", "after-edge"):
-                # the tagged text ends exactly with byte 4095 (wholly inside the window) / starts exactly at byte 4096 (wholly after)
+            elif pos in ("inside-edge", "after-edge", "inside-edge+1"):
+                # the tagged text ends exactly with byte 4095 (wholly inside the window) / starts exactly at byte 4096 (wholly after) /
+                # ends one byte later: its very last byte - the LF of a CRLF, say - falls outside, the CR is the window's last byte
                 want = 4096 - len(data) if pos == "inside-edge" else 4096
+                if pos == "inside-edge+1":
+                    # ... such that the CR of a CRLF that ends a *tag line* is the last byte of the window and its LF the first
+                    # byte outside; tags further down are then outside as well, so only single-tag texts are placed like this
+                    want = -1
+                    off = 0
+                    for ln in data.split(b"\r\n"):
+                        if any(m in ln for m in (b"SPDX-", b"Copyright", "©".encode())):
+                            want = 4095 - (off + len(ln))
+                            break
+                        off += len(ln) + 2
+                    ntags = len(made[1]["lic"]) + len(made[1]["cop"]) + len(made[1]["con"])
+                    if eol != b"\r\n" or ntags != 1 or b"\r\n" not in data:
+                        want = -1
                 if want < len(eol) + 1:
                     blob = data
                     pos = "start"
@@ -353,6 +370,13 @@ def run_disk(case, ctx, res):
             name = f"f{j}.dat"
             (root / name).write_bytes(blob)
             expected[name] = (exp, desc, blob)
+        # binary files with the same extension, met before and between the text files: what is found out about one file says
+        # nothing about the next
+        from .. import trees as _trees
+
+        for bn in ("a0.dat", "f2a.dat", "sub0/a.dat"):
+            (root / bn).parent.mkdir(exist_ok=True)
+            (root / bn).write_bytes(_trees.BINARY_BLOB)
         r = run_cli(["--no-multiprocessing", "--root", str(root), "lint", "--json"], cwd=str(root))
         if r.escaped:
             res.violation("escaped-exception", f"{r.exc_type} left main()", tb=r.exc_tb)
